@@ -1,6 +1,7 @@
 package main
 
 import (
+	"sort"
 	"fmt"
 	"go/ast"
 	"go/constant"
@@ -265,6 +266,28 @@ func (e *evalEnv) ident(x *ast.Ident) tv {
 	if obj := types.Universe.Lookup(x.Name); obj != nil {
 		if tn, ok := obj.(*types.TypeName); ok {
 			return tv{typ: tn.Type(), isType: true}
+		}
+	}
+	// contracts on functions of other packages (standard library, dependencies) are written in a repository file:
+	// names of specification functions resolve in the repository packages as well
+	if e.g != nil && e.g.eng != nil {
+		var paths []string
+		for pth := range e.g.eng.allPkgs {
+			if strings.HasPrefix(pth, repoModule) {
+				paths = append(paths, pth)
+			}
+		}
+		sort.Strings(paths)
+		for _, pth := range paths {
+			p := e.g.eng.allPkgs[pth]
+			if p.Types == nil {
+				continue
+			}
+			if obj := p.Types.Scope().Lookup(x.Name); obj != nil {
+				if _, isFn := obj.(*types.Func); isFn && e.g.eng.specs[pth+"."+x.Name] != nil {
+					return e.object(obj, x)
+				}
+			}
 		}
 	}
 	e.fail(x, "unresolved name %q", x.Name)
@@ -884,6 +907,12 @@ func isSpecSeqType(t types.Type) bool {
 func (e *evalEnv) toSpec(v tv, x ast.Node) tv {
 	if v.spec {
 		return v
+	}
+	if s, ok := v.typ.Underlying().(*types.Slice); ok {
+		if in, ok := s.Elem().Underlying().(*types.Slice); ok && slots(in.Elem()) == 1 && kindOf(in.Elem()) == "I" {
+			// [][]byte (also []net.IP, ...): sequence of the byte strings its elements hold
+			return tv{term: fmt.Sprintf("(qofarr2 (select %s (sref %s)) %s (soff %s) (sllen %s))", e.st.H["L"], v.term, e.st.H["I"], v.term, v.term), typ: tSSeq, spec: true}
+		}
 	}
 	if !isSpecSeqType(v.typ) {
 		e.fail(x, "cannot view %s as a sequence of strings", v.typ)
